@@ -32,7 +32,7 @@ SampleOK(a, mode, k, s) ==
          /\ ChkS("A.value-denotes-x", k, ToSet(s.n) \subseteq MemberNames(a) => Denote(a, ToSet(s.n), ToSet(s.r)) = xs)
          /\ ChkS("A.reencoded=x", k, ToSet(s.e) = xs)
          /\ ChkS("A.literal", k, mode = "pod" => s.l)
-         /\ ChkS("A.enum-one-name", k, (a.kind = "enum" /\ mode = "pod") => (Len(s.n) = 1 /\ s.r = <<>>))
+         /\ ChkS("A.enum-name-or-integer", k, (a.kind = "enum" /\ mode = "pod") => (s.n = <<>> \/ (Len(s.n) = 1 /\ s.r = <<>>)))
 TAdapter == /\ IsEvent("A") /\ UNCHANGED <<vars, tid>>
             /\ Assert(Rec.a \in DOMAIN Adapters, <<"unknown adapter", l>>)
             /\ \A k \in DOMAIN Rec.s : SampleOK(Adapters[Rec.a], Rec.mode, k, Rec.s[k])
